@@ -592,4 +592,21 @@ def ZL.step (perZone : Nat) (z : ZL) : ZOp → ZL
   | .enter => (z.enter perZone).1
   | .leave => z.leave
 
+/-! ## 12. Resolver.queryServer: the upstream-attempt slot -/
+
+/-- how one upstream attempt (a `queryServer` goroutine) ends -/
+inductive AttemptExit
+  | breakerOpen    -- circuit breaker refuses the server: a result is sent
+  | contextDead    -- the lookup was already over when the worker first ran: early return, no result
+  | resultSent     -- exchanged, the result is read by lookup
+  | resultDropped  -- exchanged, lookup is gone: `<-ctx.Done()` instead of the send
+deriving DecidableEq, Repr
+
+/-- `maxConcurrent` occupancy: lookup's main loop takes a slot before it
+launches the worker; `queryServer` hands it back through `releaseSlot`
+(deferred, and called early before the result send; guarded to run once). -/
+def attemptSlots (held : Nat) : List AttemptExit → Nat
+  | [] => held
+  | _ :: rest => attemptSlots held rest      -- +1 at launch, −1 on every exit
+
 end SdnsVerif.Model.OneReply
